@@ -107,6 +107,9 @@ R = {
     "prov_rdkit_attrs": tiered(extra.prov_rdkit_attrs),
     "prov_ring_edges": tiered(extra.prov_ring_edges),
     "sent_order_zero": tiered(extra.sent_order_zero),
+    "sent_anchor_key": tiered(extra.sent_anchor_key),
+    "sent_numeric_attrs": tiered(extra.sent_numeric_attrs),
+    "ord_complete_loops": tiered(extra.ord_complete_loops),
     "own_mutable_defaults_layout": named("own_mutable_defaults_layout", own.own_mutable_defaults, "quick", tuple(own.SKIP_MODULES), 2),
     "det_shared_state_sampler": named("det_shared_state_sampler", extra.det_shared_state,
                                       ["sample:MoleculeSampler.__init__", "sample:MoleculeSampler.sample", "sample:MoleculeSampler.add_fragment",
@@ -128,24 +131,24 @@ EXPL = ("Static analysis of /repo's current source, nothing is executed: ast, ha
         "canonical access paths, abstract evaluation of small predicates over finite domains, effect summaries, emission models. "
         "Each obligation is a necessary structural clause of the property; the behaviour as a whole is not decided.")
 
-prop("C01", ["prov_bond_edge", "tok_rules", "ord_resolve_phases", "sib_atomistic_level", "prov_copy_complete"],
+prop("C01", ["prov_bond_edge", "tok_rules", "ord_resolve_phases", "sib_atomistic_level", "prov_copy_complete", "ord_complete_loops"],
      "the cut bond's order travels from descriptor to bond (int(d[-1]) / 1.5 iff both ends aromatic); a bond-order symbol is consumed by exactly "
      "one thing in the fragment tokenizer (ring digits and atoms clear the pending order); phase order instantiate < connect < squash < hydrogens < sort; "
      "reader and resolver agree on which level is atomistic; fragment copies are complete",
      "equality with the original molecule: hydrogen counts, aromatic orders, charges come from pysmiles; choice of descriptor pair is data dependent",
-     floors={"PROV.bond-order": 1, "TOK.T2-ring": 2, "TOK.T3-atom": 4, "TOK.invariant": 1, "ORD.resolve-phases": 10, "SIB.S4-atomistic-level": 4})
-prop("C02", ["key_fragid", "prov_annotate_lookup", "ord_resolve_annotate", "tab_copy_attrs", "prov_h_inherit", "prov_copy_complete", "prov_squash"],
+     floors={"ORD.complete-loops": 11, "PROV.bond-order": 1, "TOK.T2-ring": 2, "TOK.T3-atom": 4, "TOK.invariant": 1, "ORD.resolve-phases": 10, "SIB.S4-atomistic-level": 4})
+prop("C02", ["key_fragid", "prov_annotate_lookup", "ord_resolve_annotate", "tab_copy_attrs", "prov_h_inherit", "prov_copy_complete", "prov_squash", "ord_complete_loops"],
      "membership is written in the key space it is read in; annotate_fragments files each fine node under the coarse keys it records; the per-node graphs "
      "are derived after sorting and after the last change of the fine node set; hydrogens inherit fragid/fragname/weight from their heavy atom; "
      "merge_graphs copies all nodes, edges and attributes of a template",
      "isomorphism of each block with its template after squashing and hydrogen completion; content of 'mapping'",
-     floors={"PAIR.squash-membership": 1, "KEY.K1-fragid": 1, "PROV.annotate-lookup": 3, "ORD.resolve-annotate": 6, "TAB.copy_attrs": 3, "PROV.h-inherit": 3, "PROV.copy-complete": 5})
+     floors={"ORD.complete-loops": 11, "PAIR.squash-membership": 1, "KEY.K1-fragid": 1, "PROV.annotate-lookup": 3, "ORD.resolve-annotate": 6, "TAB.copy_attrs": 3, "PROV.h-inherit": 3, "PROV.copy-complete": 5})
 prop("C03", ["tt_compatible", "prov_matcher_shape", "who_may_bond", "prov_matcher_args", "trip_bond_loop",
-             "pair_resolver_consume", "prov_bond_edge", "sent_order_zero"],
+             "pair_resolver_consume", "prov_bond_edge", "sent_order_zero", "ord_complete_loops"],
      "compatibility truth table over 320 abstract states; matcher shape; sole bond site; matcher arguments are the two ends of the iterated base-graph edge; "
      "loop trip count = edge order from 0; consume-on-use pairing on every path; provenance of endpoints, recorded pair and order",
      "'exactly that many' bonds depends on first-match search order over runtime lists",
-     floors={"SENT.order-zero": 20, "TT.compatible": 1, "PROV.matcher-shape": 4, "OWN.sole-bond-site": 1, "PROV.matcher-args": 1,
+     floors={"ORD.complete-loops": 11, "SENT.order-zero": 20, "TT.compatible": 1, "PROV.matcher-shape": 4, "OWN.sole-bond-site": 1, "PROV.matcher-args": 1,
              "PROV.legacy-forwarded": 2, "TRIP.bond-loop": 3, "PAIR.resolver-consume": 3, "PROV.bond-edge": 2, "PROV.bond-order": 1})
 prop("C04", ["tab_reader_symbols", "da_reader", "da_globals_reader", "sib_ring_handlers", "prov_ring_edges", "prov_node_attributes"],
      "a sliver: the reader's symbol table equals the documented one and its guard admits every symbol; no possibly-unbound local on a feasible path of the "
@@ -154,11 +157,11 @@ prop("C04", ["tab_reader_symbols", "da_reader", "da_globals_reader", "sib_ring_h
      "whether nodes, edges and orders are the ones the grammar denotes: index arithmetic over the pattern string (simultaneous branch closings, "
      "unbounded %nn digits) has no structural witness in reach",
      floors={"TAB.reader-symbols": 2, "DA.reader": 5, "SIB.S2-ring-handlers": 3, "PROV.ring-edges": 6, "PROV.node-attributes": 4})
-prop("C05", ["da_reader", "trip_multiplier", "sib_multiplier_scans"],
+prop("C05", ["da_reader", "trip_multiplier", "sib_multiplier_scans", "sent_anchor_key"],
      "definite assignment in the branch expansion block (base_anchor); trip counts of node loop, recipe entries, _expand_branch and the branch loop "
      "(multiplier - 1); both multiplier number scans stop at the same token set including the order symbols",
      "isomorphism of shorthand and longhand for nested anchors (prev_node + offset arithmetic), bond orders between copies",
-     floors={"DA.reader": 5, "TRIP.multiplier": 4, "SIB.S3-multiplier-scan": 2})
+     floors={"SENT.anchor-key": 1, "DA.reader": 5, "TRIP.multiplier": 4, "SIB.S3-multiplier-scan": 2})
 prop("C06", ["sib_atomistic_level", "ord_resolve_handover", "sib_drivers", "ord_resolve_phases", "prov_squash", "prov_bond_edge"],
      "reader and resolver use the same 'last level and last_all_atom' predicate (linear normal form); hand-over of fine graph to coarse graph, names, "
      "level dictionary, counter advanced once after last use; resolve_iter / resolve_all only delegate",
@@ -176,11 +179,11 @@ prop("C08", ["emit_format_bonding", "tab_fragment_symbols", "tok_rules", "emit_w
      "equality of the re-read fragment graphs (pysmiles writes and parses the atoms); coarse fragments are written with the fragment's name in place of "
      "each node's own name (seen while reading, outside the rules)",
      floors={"EMIT.write_graph": 2, "EMIT.format_bonding": 4, "TAB.fragment-symbols": 1, "SENT.pending-order": 1, "TOK.T5-descriptor": 6})
-prop("C09", ["ord_resolve_phases", "ord_sample_finalise", "ord_hydrogens", "tab_copy_attrs", "prov_h_inherit"],
+prop("C09", ["ord_resolve_phases", "ord_sample_finalise", "ord_hydrogens", "tab_copy_attrs", "prov_h_inherit", "sent_numeric_attrs"],
      "every all-atom path of resolver and sampler passes the hydrogen rebuild after the last connectivity change and before renumbering; inside the rebuild: "
      "reset hcount to 0 < fill_valence(respect_hcount=False) < add_explicit_hydrogens, aromatic correction < fill; keep_bonding unused; hydrogens inherit attributes",
      "the numbers themselves (valence lists, charges, aromatic correction) are pysmiles'",
-     floors={"ORD.resolve-phases": 10, "ORD.sample-finalise": 5, "ORD.hydrogens": 9, "TAB.copy_attrs": 3, "PROV.h-inherit": 3})
+     floors={"SENT.numeric-attribute": 30, "ORD.resolve-phases": 10, "ORD.sample-finalise": 5, "ORD.hydrogens": 9, "TAB.copy_attrs": 3, "PROV.h-inherit": 3})
 prop("C10", ["prov_squash", "ord_resolve_phases", "prov_bond_edge", "tt_compatible"],
      "contraction exactly for '!' pairs (truth table over kinds); merged nodes are the bond's endpoints followed through earlier merges, the removed node is "
      "recorded; self_loops=False; result assigned back; kept node's fragid/mapping extended on every path; connect < squash < hydrogens; the pair is recorded on the bond",
@@ -205,11 +208,11 @@ prop("C13", ["tok_rules"],
      "anything about the cleaned text being valid SMILES; `( symbol descriptor )` leaves an empty branch",
      floors={"TOK.T0-conservation": 3, "TOK.T1-symbol": 1, "TOK.T2-ring": 2, "TOK.T3-atom": 6, "TOK.T4-branch": 2, "TOK.T5-descriptor": 8,
              "TOK.T6-slash": 1, "TOK.invariant": 1, "SENT.pending-order": 1})
-prop("C14", ["tab_dialects", "ord_parse_pipeline", "prov_node_attributes", "prov_copy_complete", "exc_annotations", "prov_h_inherit"],
+prop("C14", ["tab_dialects", "ord_parse_pipeline", "prov_node_attributes", "prov_copy_complete", "exc_annotations", "prov_h_inherit", "sent_numeric_attrs"],
      "both dialect signatures, defaults, types, rename maps equal the documented table; bind < cast < defaults, cast < rename, cast keyed by name over all "
      "bound arguments; base-graph node attributes come from the node's own text (also for multiplied copies and recipes); fragment copies keep all attributes",
      "numeric spellings (python's float); `q=` at the coarse-fragment level is parsed by the atomistic dialect (seen while reading, outside the rules)",
-     floors={"SENT.attribute-value": 1, "TAB.dialects": 3, "ORD.parse-pipeline": 6, "PROV.node-attributes": 4, "PROV.copy-complete": 5})
+     floors={"SENT.numeric-attribute": 30, "SENT.attribute-value": 1, "TAB.dialects": 3, "ORD.parse-pipeline": 6, "PROV.node-attributes": 4, "PROV.copy-complete": 5})
 prop("C15", ["ord_resolve_stereo", "prov_relative_attr", "tok_rules", "prov_copy_complete"],
      "the cis/trans annotation runs after the last relabelling and after hydrogens exist, on the relabelled graph; node-referencing attributes are "
      "remapped through the relabelling map and shifted on merge; slash marks are recorded for the atoms around them; chirality annotations are copied",
